@@ -383,7 +383,13 @@ class MultiplyOperator(Operator):
                     'adjoint not implemented for domain{!r}'
                     ''.format(self.domain))
         elif self.domain.is_complex:
-            return MultiplyOperator(np.conj(self.multiplicand),
+            if isinstance(self.multiplicand, LinearSpaceElement):
+                # `np.conj` needs `asarray`, which product spaces that are
+                # not power spaces do not support
+                conj_multiplicand = self.multiplicand.conj()
+            else:
+                conj_multiplicand = np.conj(self.multiplicand)
+            return MultiplyOperator(conj_multiplicand,
                                     domain=self.range, range=self.domain)
         else:
             return MultiplyOperator(self.multiplicand,
